@@ -152,8 +152,7 @@ impl <T: ArrayElement> ArraySplit<T> for Array<T> {
         if self.is_empty()? { return Ok(vec![self.clone()]) }
 
         let axis = axis.unwrap_or(0);
-        let n_total = self.len()?;
-
+        let n_total = self.shape[axis];
         let (sections, extras) = (n_total / parts, n_total % parts);
         let section_sizes = std::iter::repeat(sections + 1)
             .take(extras)
@@ -169,17 +168,18 @@ impl <T: ArrayElement> ArraySplit<T> for Array<T> {
 
         let arr = self.rollaxis(axis.to_isize(), None);
         arr.clone().map_or_else(|_| Err(arr.err().unwrap()), |arr| {
+            // the axis is first now: every index of it owns `block` consecutive elements
+            let block = self.len()? / n_total;
             let result = div_points
                 .windows(2)
-                .map(|w| arr.clone().into_iter()
-                    .skip(w[0]).take(w[1] - w[0])
-                    .collect::<Self>())
-                .map(|m| {
+                .map(|w| (w[1] - w[0], arr.clone().into_iter()
+                    .skip(w[0] * block).take((w[1] - w[0]) * block)
+                    .collect::<Self>()))
+                .map(|(size, m)| {
                     if self.ndim()? == 1 { Ok(m) }
                     else {
-                        let mut new_shape = self.get_shape()?;
-                        new_shape[axis] /= parts;
-                        m.reshape(&new_shape)
+                        let rolled_shape = arr.get_shape()?.update_at(0, size);
+                        m.reshape(&rolled_shape).moveaxis(vec![0], vec![axis.to_isize()])
                     }
                 })
                 .collect::<Vec<Result<Self, _>>>();
